@@ -184,6 +184,13 @@ def main(tier):
         text, ex = g.program(depth=rng.choice([1, 2, 3]), nstmts=(2, 6))
         items.append(dict(name=f"prog{i}", text=text, exports=ex, vkey="prog"))
     items += [it for it in gen.hybrid_programs(random.Random(run.seed + 1), 0) if not it["name"].startswith("se;") and not it["name"].endswith(";arm")]
+    # statement-expressions with 1..4 statements in front of the value (accepted or rejected - but never partly dropped)
+    for n in range(1, 5):
+        body = " ".join(f"v{k} = v{k} + {k + 1};" for k in range(n))
+        decl = " ".join(f"int32_t v{k} = RsV;" for k in range(4))
+        items.append(dict(name=f"stmtexpr{n}", text=f"{{ {decl} ReV = ({{ {body} v0; }}); RddV = v0 + v1 + v2 + v3; }}", exports=[(f"v{k}", "int32_t") for k in range(4)], vkey="stmtexpr"))
+        regs = ["RxV = 1;", "RyyV = 2;", "mem_store_u8(RtV, 3);", "ReV = 4;"][:n]
+        items.append(dict(name=f"stmtexprreg{n}", text=f"{{ RddV = ({{ {' '.join(regs)} RsV; }}); }}", vkey="stmtexpr"))
     fam.replay_witnesses()
     progs, kept = fam.compile(items)
     conserved = 0
